@@ -228,6 +228,22 @@ Proof.
   vm_compute. intro H. discriminate H.
 Qed.
 
+(** the same history on the current model (switch at [anp_rule_fixed] since /repo
+    5182ff3): the stale value is cleared, the stored status is the true one, and
+    it stays the true one when the group flips back *)
+Lemma flip_repaired :
+  anp_rule = anp_rule_fixed
+  /\ s_anp (g_status ex_pg2) = [1000; 0; 2000]
+  /\ current_preemptible ex_classes ex_pg2 = true
+  /\ pg_reconcile ex_classes [ex_pod] ex_pg2 = Some (true_pg_status true [ex_pod])
+  /\ s_anp (true_pg_status true [ex_pod]) = []
+  /\ pg_writes ex_classes [ex_pod] ex_pg2 = true
+  /\ pg_reconcile ex_classes [ex_pod]
+       {| g_spec := SpecNonPreemptible; g_prio_class := g_prio_class ex_pg2;
+          g_status := true_pg_status true [ex_pod] |}
+     = Some (true_pg_status false [ex_pod]).
+Proof. vm_compute. repeat split. Qed.
+
 Lemma podgroup_sums_stmt_v0_false : ~ podgroup_sums_stmt anp_rule_v0.
 Proof.
   intro H. destruct podgroup_sums_refuted_v0 as (cl & pods & g & st & Hr & Hne).
@@ -275,6 +291,12 @@ Proof.
     { unfold pg_step_with. rewrite H1. reflexivity. }
     rewrite Hstep. unfold pg_writes_with. rewrite Hstep, H1. split; reflexivity.
 Qed.
+
+(** for the model as it stands, whichever way the switch is set *)
+Lemma pg_second_reconcile_current : forall classes pods g,
+  pg_step classes pods (pg_step classes pods g) = pg_step classes pods g
+  /\ pg_writes classes pods (pg_step classes pods g) = false.
+Proof. intros. apply pg_second_reconcile_same. exact anp_rule_idem. Qed.
 
 (** * Sums over filtered lists *)
 
